@@ -64,8 +64,16 @@ def run_case(prop, cfg, ops, opts=None, wall=60):
     except Violation as v:
         r.violation = {"property": v.prop, "oracle": v.oracle,
                        "message": v.msg, "op_index": v.op_index}
+        plan = dict(w.control_plan)
+        if v.oracle.startswith(("wrong-answer-after-ioerror",
+                                "ioerror-file-after-close")):
+            # the pruning of the admissible set may itself have been misled
+            # by a wrong answer: try every outcome of the failed operation
+            io = getattr(w, "io_fault_op", None)
+            if io is not None:
+                plan[io] = ("either",)
         if w.faulted and not opts.get("no_control") and \
-                _control_diverges(cfg, ops, v.op_index):
+                _control_diverges(cfg, ops, v.op_index, plan):
             # the same history without the injected fault goes wrong as
             # well: whatever this is, it is not a consequence of the fault
             r.violation = None
@@ -84,38 +92,88 @@ def run_case(prop, cfg, ops, opts=None, wall=60):
     return r
 
 
-def _strip_faults(ops):
-    out = []
-    for op in ops:
-        o = copy.deepcopy(op)
-        o.pop("faults", None)
-        o.pop("cfault", None)
-        o.pop("poison", None)
-        out.append(o)
-    return out
+def _strip(op):
+    o = copy.deepcopy(op)
+    o.pop("faults", None)
+    o.pop("cfault", None)
+    o.pop("poison", None)
+    return o
 
 
-def _control_diverges(cfg, ops, upto):
-    """Fault-free control of a faulted history (same operations, no crash,
-    no I/O error, no failing collaborator)."""
-    w2 = World(cfg, "__twin__", tf())
+def _control_variants(ops, upto, plan):
+    """Fault-free histories equivalent to the faulted one: every faulted
+    operation is replaced by what it amounted to (dropped, completed, a
+    prefix of an insert_multiple), followed by a clean reopen where the
+    fault was a process death.  An I/O error may have left either outcome:
+    both are tried."""
+    variants = [[]]
+    for i, op in enumerate(ops[:upto + 1]):
+        p = plan.get(i)
+        if p is None or i == upto and p[0] != "either" and False:
+            for v in variants:
+                v.append(_strip(op))
+            continue
+        reopen = [{"op": "reopen", "how": "close",
+                   "cfg": {"access_mode": "r+"}}] if "reopen" in p else []
+        # an operation that had no effect on the contents still performed
+        # the automatic reindex of a read: the control keeps that part
+        stand_in = [] if op["op"] in ("insert", "insert_multiple",
+                                      "bad_point", "clock", "reopen") \
+            else [{"op": "get_measurements"}]
+        if p[0] == "drop":
+            for v in variants:
+                v.extend(stand_in)
+                v.extend(reopen)
+        elif p[0] == "keep":
+            for v in variants:
+                v.append(_strip(op))
+                v.extend(reopen)
+        elif p[0] == "prefix":
+            o = _strip(op)
+            o["pts"] = o["pts"][:p[2]]
+            for v in variants:
+                v.append(o)
+                v.extend(reopen)
+        else:  # either
+            if len(variants) > 4:
+                for v in variants:
+                    v.append(_strip(op))
+                continue
+            new = []
+            for v in variants:
+                new.append(v + stand_in)
+                new.append(v + [_strip(op)])
+            variants = new
+    return variants
+
+
+def _control_diverges(cfg, ops, upto, plan=None):
+    """Fault-free controls of a faulted history (one per possible outcome
+    of the faulted operations).  True if a control goes wrong as well: then
+    something other than the fault is broken, and the failure is not
+    attributed to the fault property."""
     tz_before = os.environ.get("TZ", "UTC")
     try:
-        w2.run(_strip_faults(ops[:upto + 1]))
-    except Violation:
-        return True
-    except Exception:
+        for ctl in _control_variants(ops, upto, plan or {}):
+            w2 = World(cfg, "__control__", tf())
+            try:
+                w2.run(ctl)
+            except Violation:
+                return True
+            except Exception:
+                continue
+            if w2.foreign is not None or w2.soft_foreign:
+                return True
         return False
     finally:
         set_tz(tz_before)
-    return w2.foreign is not None
 
 
 def _make_twin(cfg, ops):
     def twin(i):
         cfg2 = dict(cfg)
         cfg2["storage"] = "mem"
-        w2 = World(cfg2, "__twin__", tf())
+        w2 = World(cfg2, "__twin__", tf(), {"emulate_reopen": True})
         tz_before = os.environ.get("TZ", "UTC")
         try:
             w2.run(ops[:i + 1])
